@@ -7,7 +7,8 @@
    selection w of fitted columns and dummy observations (Ld, Rd).  numpy.linalg.solve is the parameter [solve] and
    enters only through [solve_contract]; the Lyapunov solver and eigvals enter as hypotheses of the _partial
    statements.  The same text is executed on exact rationals against irispie.RedVAR by harness/C18.py. *)
-From Verif Require Import lib.MxC18 lib.MxC18MC model.RedVar proofs.RedVarProofs proofs.RedVarDataProofs.
+From Coq Require Import String.
+From Verif Require Import lib.MxC18 lib.MxC18MC gen.RedVarGen model.RedVar proofs.RedVarProofs proofs.RedVarDataProofs.
 From mathcomp Require Import all_ssreflect all_algebra.
 Set Implicit Arguments.
 Unset Strict Implicit.
@@ -57,6 +58,19 @@ Theorem C18_residuals_orthogonal (F : fieldType) (solve : solver F) (n q m k N N
 Proof. by move=> sc; exact: est_residual_orthogonal. Qed.
 Print Assumptions C18_residuals_orthogonal.
 
+(* 2b. ... and without prior observations (no dummy columns) it is the plain statement U_w R_w' = 0 *)
+Theorem C18_residuals_orthogonal_no_prior (F : fieldType) (solve : solver F) (n q m k N Nw : nat)
+    (w : 'I_Nw -> 'I_N) (dof : bool)
+    (Y0 : 'M[F]_(n, N)) (Y1 : 'M[F]_(n + q * n, N)) (X : 'M[F]_(m, N)) (Kc : 'M[F]_(k, N))
+    (Ld : 'M[F]_(n, 0)) (Rd : 'M[F]_(n + q * n + (m + k), 0)) :
+  solve_contract solve ->
+  let est := estimate_core (M := MC solve) (n := n) (q := q) (m := m) (k := k) w dof Y0 Y1 X Kc Ld Rd in
+  let Rw : 'M[F]_(n + q * n + (m + k), Nw) := colsel w (col_mx Y1 (col_mx X Kc)) in
+  let U : 'M[F]_(n, N) := est.2.1.2 in
+  Rw *m Rw^T \in unitmx -> colsel w U *m Rw^T = 0.
+Proof. exact: est_residual_orthogonal_no_prior. Qed.
+Print Assumptions C18_residuals_orthogonal_no_prior.
+
 (* 3. fitted equation + stored residual = data: on every column, hence on every fitted observation *)
 Theorem C18_fit_plus_residual (F : fieldType) (solve : solver F) (n q m k N Nw Nd : nat)
     (w : 'I_Nw -> 'I_N) (dof : bool)
@@ -95,12 +109,12 @@ Theorem C18_cov_is_second_moment (F : fieldType) (solve : solver F) (n q m k N N
     (w : 'I_Nw -> 'I_N) (dof : bool)
     (Y0 : 'M[F]_(n, N)) (Y1 : 'M[F]_(n + q * n, N)) (X : 'M[F]_(m, N)) (Kc : 'M[F]_(k, N))
     (Ld : 'M[F]_(n, Nd)) (Rd : 'M[F]_(n + q * n + (m + k), Nd)) :
-  (2%:R : F) != 0 ->
+  (2%:R : F) != 0 -> (k <= 1)%N ->
   let est := estimate_core (M := MC solve) (n := n) (q := q) (m := m) (k := k) w dof Y0 Y1 X Kc Ld Rd in
   let U : 'M[F]_(n, N) := est.2.1.2 in
   let cov : 'M[F]_n := est.2.2 in
   cov = (Nw%:R - (if dof then m + k else 0)%N%:R)^-1 *: (colsel w U *m (colsel w U)^T) /\ cov^T = cov.
-Proof. by move=> two; exact: est_cov. Qed.
+Proof. by move=> two k1; rewrite -(dof_count_intercept n q m dof k1); exact: est_cov. Qed.
 Print Assumptions C18_cov_is_second_moment.
 
 (* 6. the companion matrix acts on a stack of lags as the stacked VAR recursion: one period of simulate_flat
@@ -177,12 +191,29 @@ by move=> e; apply: acov0_yule_walker; rewrite /lyap_residual /= -e subrr.
 Qed.
 Print Assumptions C18_acov_companion_partial.
 
+(* 10b. the scalar formulas regenerated from the source on this run (Dimensions properties, degrees-of-freedom
+        subtrahend, number of dummy observations of the two priors, position of A inside beta, default residual)
+        are the ones the model and the statements above assume.  The matrix fragments gen_ols, gen_residuals,
+        gen_cov_residuals, gen_symmetrize are used directly as the model's definitions. *)
+Theorem C18_generated_formulas (n p m : nat) (ic dof : bool) :
+  gen_dimension_fields = ("num_endogenous" :: "order" :: "has_intercept" :: "num_exogenous" :: nil)%string /\
+  gen_num_nonendogenous n p ic m = (m + PeanoNat.Nat.b2n ic)%coq_nat /\
+  gen_num_lagged_endogenous n p ic m = (n * p)%coq_nat /\
+  gen_num_rhs n p ic m = (n * p + (m + PeanoNat.Nat.b2n ic))%coq_nat /\
+  gen_split_a_end n p ic m = (n * p)%coq_nat /\
+  gen_dof_subtrahend n p ic m dof = (if dof then (m + PeanoNat.Nat.b2n ic)%coq_nat else 0%N) /\
+  gen_minnesota_num_obs n p ic m = (n * p)%coq_nat /\
+  gen_mean_num_obs n p ic m = PeanoNat.Nat.b2n ic /\
+  gen_default_residual_is_zero = true.
+Proof. exact: generated_formulas. Qed.
+Print Assumptions C18_generated_formulas.
+
 (* 11. data layer, any value type with a finiteness test: the fitted positions are, in increasing order, exactly the
        columns on which the current observation, all p lags of every endogenous variable and every exogenous
        variable are finite; row i*n+v of the lag stack is lag i+1 of variable v *)
 Theorem C18_mask_exact (T : Type) (fin : T -> bool) (one dflt : T) (p k N : nat) (ys xs : list (list T)) :
-  (forall r, List.In r ys -> length r = (p + N)%coq_nat) ->
-  (forall r, List.In r xs -> length r = (p + N)%coq_nat) ->
+  (forall r, List.In r ys -> List.length r = (p + N)%coq_nat) ->
+  (forall r, List.In r xs -> List.length r = (p + N)%coq_nat) ->
   ys <> nil -> fin one = true ->
   let idx := true_positions 0 (ed_where (estimation_data T fin one dflt p k true ys xs)) in
   Sorted.StronglySorted lt idx /\
@@ -194,9 +225,9 @@ Proof. exact: fitted_positions_exact. Qed.
 Print Assumptions C18_mask_exact.
 
 Theorem C18_lag_stacking (T : Type) (dflt : T) (p N : nat) (ys : list (list T)) (i v j : nat) :
-  (forall r, List.In r ys -> length r = (p + N)%coq_nat) ->
-  (i < p)%coq_nat -> (v < length ys)%coq_nat -> (j < N)%coq_nat ->
-  List.nth j (List.nth (i * length ys + v)%coq_nat (stack_y1 T p ys) nil) dflt
+  (forall r, List.In r ys -> List.length r = (p + N)%coq_nat) ->
+  (i < p)%coq_nat -> (v < List.length ys)%coq_nat -> (j < N)%coq_nat ->
+  List.nth j (List.nth (i * List.length ys + v)%coq_nat (stack_y1 T p ys) nil) dflt
   = List.nth (p + j - S i)%coq_nat (List.nth v ys nil) dflt
   /\ List.nth j (List.nth v (stack_y0 T p ys) nil) dflt = List.nth (p + j)%coq_nat (List.nth v ys nil) dflt.
 Proof. by move=> H1 H2 H3 H4; split; [exact: (@stack_y1_nth T dflt p N ys i v j H1 H2 H3 H4) | exact: stack_y0_nth]. Qed.
